@@ -70,6 +70,23 @@ def configs(tier):
                                backend=be, fn=fn, form=form, n1=n1, n2=n2, n3=n3, auto=True, fork=fn.startswith("isi_"),
                                cost=3 * 8 ** (n1 + abs(n2) + (n3 or 0)), validate=2,
                                split_forks=(8 if n1 + abs(n2) + (n3 or 0) >= 4 else None))
+    for c in repeat_configs(tier):
+        yield c
+
+
+REPEAT_FNS = ["isi_distance", "spike_distance", "spike_sync", "spike_sync_profile", "spike_train_order",
+              "isi_profile", "spike_directionality"]
+
+
+def repeat_configs(tier):
+    # one call, then other measures on the SAME objects, then the same call again: the answer must not
+    # depend on what was evaluated before, and the caller's trains must still be what they were
+    sizes = [(0, 0), (0, 1), (1, 0), (1, 1), (0, 2)] + ([(2, 1), (2, 2)] if tier != "quick" else [])
+    for fn in REPEAT_FNS:
+        for (n1, n2) in sizes:
+            for rec in ("default", "norec"):
+                yield dict(name="repeat-py-%s-%s-%d+%d" % (fn, rec, n1, n2), what="repeat", backend="py", fn=fn,
+                           rec=rec, n1=n1, n2=n2, fork=("spike_dist" in fn), cost=6 ** (n1 + n2 + 1), validate=3)
 
 
 def controls(tier):
@@ -121,7 +138,42 @@ def untouched(E, st, sn):
 def program(E, cfg):
     if cfg["what"] == "reconcile":
         return reconcile(E, cfg)
+    if cfg["what"] == "repeat":
+        return repeat(E, cfg)
     return measure(E, cfg)
+
+
+def repeat(E, cfg):
+    ts, te = hx.edges(E)
+    a = hx.train(hx.spikes(E, "a", cfg["n1"], ts, te), ts, te)
+    b = hx.train(hx.spikes(E, "b", cfg["n2"], ts, te), ts, te)
+    fn = getattr(pyspike, cfg["fn"])
+    kw = {} if cfg["rec"] == "default" else {"Reconcile": False}
+    snaps = [snap(a), snap(b)]
+    with hx.quiet():
+        r0 = fn(a, b, **kw)
+        for prime in (pyspike.isi_distance, pyspike.spike_distance, pyspike.spike_sync, pyspike.spike_train_order):
+            try:
+                prime(a, b, **kw)
+                prime([a, b, a], **kw)
+            except Exception:
+                pass            # totality is C18's subject; here only what the calls leave behind matters
+        r1 = fn(a, b, **kw)
+    f0 = flatten(r0)
+    f1 = flatten(r1)
+    E.observe("first", [v for _, v in f0][:20])
+    E.observe("again", [v for _, v in f1][:20])
+    if E.prove(len(f0) == len(f1) and all(x[0] == y[0] for x, y in zip(f0, f1)),
+               "%s: same result structure when asked again" % cfg["fn"]):
+        for (l0, v0), (l1, v1) in zip(f0, f1):
+            if l0.endswith(".len") or l0.endswith(".shape"):
+                E.prove(v0 == v1, "%s: same shape when asked again" % cfg["fn"])
+            elif not E.finite(v0) and not E.finite(v1):
+                continue
+            else:
+                E.prove(E.eq(v0, v1), "%s: same result when asked again after other measures on the same objects" % cfg["fn"])
+    for t, sn in zip((a, b), snaps):
+        E.prove(untouched(E, t, sn), "%s: caller's spike trains are not modified by a sequence of calls" % cfg["fn"])
 
 
 def reconcile(E, cfg):
